@@ -1,8 +1,8 @@
 module github.com/spikeekips/mitum
 
-go 1.22
+go 1.22.0
 
-toolchain go1.22.1
+toolchain go1.23.5
 
 require (
 	github.com/Masterminds/semver/v3 v3.3.0
